@@ -1294,6 +1294,12 @@ func TestVerifC11BFS(t *testing.T) {
 			r.Transitions(1)
 			return
 		}
+		if rc.Start == "clock-offset" {
+			clockOffsetSweep(t, r)
+			r.States(1)
+			r.Transitions(1)
+			return
+		}
 		if rc.Start == "external-list" {
 			externalListSweep(t, r)
 			r.States(1)
@@ -1341,6 +1347,9 @@ func TestVerifC11BFS(t *testing.T) {
 	}
 	if ws == 1%nws {
 		externalListSweep(t, r) // list length x revoked index of a foreign issuer's list, once per run
+	}
+	if ws == 3%nws {
+		clockOffsetSweep(t, r) // revocation dates ahead of / behind the receiving node's clock, once per run
 	}
 	if ws == 2%nws {
 		multiEntrySweep(t, r) // credentials with 2-3 status entries in every order, once per run
